@@ -456,6 +456,7 @@ class EvalMixin:
         """map(f, s) over a symbolic sequence (same canonical term as the comprehension [f(x) for x in s])"""
         et = it.t.args[0]
         xb = z3.Const(f"cx!{et.kind}!{len(st.bound)}", et.z3sort() if et.kind != "char" else Int)
+        st.ghost.setdefault("__comp_code", []).append(st.spec == 0)
         st.spec += 1
         st.bound.append(xb)
         try:
@@ -463,6 +464,7 @@ class EvalMixin:
         finally:
             st.bound.pop()
             st.spec -= 1
+            st.ghost["__comp_code"].pop()
         return self.seq_map_core(st, it, xb, ev, [])
 
     def seq_map(self, st, n, g, it: Z, fr):
@@ -470,6 +472,7 @@ class EvalMixin:
         et = it.t.args[0]
         xb = z3.Const(f"cx!{et.kind}!{len(st.bound)}", et.z3sort() if et.kind != "char" else Int)
         st.frames.append(fr)
+        st.ghost.setdefault("__comp_code", []).append(st.spec == 0)
         st.spec += 1
         st.bound.append(xb)
         try:
@@ -480,6 +483,7 @@ class EvalMixin:
             st.bound.pop()
             st.spec -= 1
             st.frames.pop()
+            st.ghost["__comp_code"].pop()
         return self.seq_map_core(st, it, xb, ev, conds)
 
     def seq_map_core(self, st, it: Z, xb, ev, conds):
@@ -523,6 +527,16 @@ class EvalMixin:
             bs = [b for b in st.bound if self._mentions(ax, b)]
             return z3.ForAll(bs, ax) if bs else ax
 
+        # preconditions of contract-cut calls in the element expression: an obligation for every element of the source
+        ppre = st.ghost.get("__pending_pre") or []
+        st.ghost["__pending_pre"] = [p for p in ppre if not p[0].eq(xb)]
+        for b, pre, short in [p for p in ppre if p[0].eq(xb)]:
+            i = z3.Const("mi!", Int)
+            guard = z3.And([0 <= i, i < z3.Length(it.e)] + [z3.substitute(cnd, (xb, smt.seq_nth(it.e, i))) for cnd in conds])
+            goal = z3.ForAll([i], z3.Implies(guard, z3.substitute(pre, (xb, smt.seq_nth(it.e, i)))))
+            if st.bound:
+                goal = z3.ForAll(list(st.bound), goal)
+            self.oblige(st, f"{self.current_target}#pre-of-call-in-comprehension[{short}]", goal, "pre")
         # postconditions of contract-cut calls in the element expression: one instance per element of the source
         pend = st.ghost.get("__pending_binder") or []
         mine = [g for b, g in pend if b.eq(xb)]
